@@ -65,6 +65,34 @@ struct ObjTD
 bool operator==(const ObjTD&, const ObjTD&);
 bool operator<(const ObjTD&, const ObjTD&);
 
+// trivially copy-assignable / copy-constructible / destructible, but MOVING must go through its own (opaque)
+// operations (a handle whose move resets the source): a bytewise copy is not a move
+struct ObjTM
+{
+    void* p;
+    ObjTM() = default;
+    ObjTM(const ObjTM&) = default;
+    ObjTM(ObjTM&&) noexcept;
+    ObjTM& operator=(const ObjTM&) = default;
+    ObjTM& operator=(ObjTM&&) noexcept;
+    ~ObjTM() = default;
+};
+bool operator==(const ObjTM&, const ObjTM&);
+bool operator<(const ObjTM&, const ObjTM&);
+
+// source / target pair whose conversion distinguishes lvalue and rvalue sources; the target is trivially copyable
+struct Src
+{
+    int v;
+};
+struct Dst
+{
+    int v;
+    Dst() = default;
+    Dst(const Src&);
+    Dst(Src&&);
+};
+
 // move constructor may throw
 struct ObjThrowMove
 {
